@@ -4,6 +4,7 @@
    waitForSpace, rollOver, handleResponse's effect on the buffer) and encode's size guard (encoder_decoder.go).
    No proofs here. Sizes are Go ints (64 bit): plain Z. Time is abstract (the timer is an event). *)
 From Coq Require Import List ZArith Bool.
+From SV Require Import Gen.GoInt.
 Import ListNotations.
 Open Scope Z_scope.
 
@@ -106,7 +107,7 @@ Definition add (c : cfg) (s : produce_set) (m : msg) : option produce_set :=
 (* produceSet.wouldOverflow *)
 Definition would_overflow (c : cfg) (s : produce_set) (m : msg) : bool :=
   let sz := byte_size (msg_version c) m in
-  if s_bytes s + sz >=? c_max_request_size c - 10240 then true
+  if s_bytes s + sz >=? wrap32 (c_max_request_size c - 10240) then true   (* int(MaxRequestSize-(10*1024)): int32 arithmetic *)
   else if match lookup (mkey m) (s_parts s) with
           | Some p => ps_bytes p + sz >=? c_max_message_bytes c
           | None => false end then true
